@@ -24,6 +24,9 @@ UNITS2 = {
                  'rf_pack_s32le', 'rf_pack_u32le', 'rf_unpack_bytes', 'rf_unpack_char', 'rf_unpack_s8', 'rf_unpack_u8', 'rf_unpack_u16le',
                  'rf_unpack_u32le'], 2),
     'RingSeq': (os.path.join(vlib.REPO, 'librfn/ringbuf.c'), ['ringbuf_init', 'ringbuf_get', 'ringbuf_empty', 'ringbuf_put'], 2),
+    # one iteration of the POSIX main loop; the clock, the scheduling pass and the sleep are the environment
+    'MainLoopSeq': (os.path.join(vlib.VERIF, 'harness/wrap_mainloop.c'), ['fibre_scheduler_main_loop'], 1,
+                    {'externs': ['time_now', 'fibre_scheduler_next', 'usleep'], 'flags': ['-I' + vlib.REPO]}),
 }
 
 def regen(units):
@@ -32,8 +35,9 @@ def regen(units):
         dst = os.path.join(vlib.LEAN, 'Librfn', 'Gen', u + '.lean')
         try:
             if u in UNITS2:
-                path, fns, fuel = UNITS2[u]
-                text = c2lean2.generate(path, fns, 'Librfn.Gen.' + u, INC, fuel=fuel)
+                path, fns, fuel = UNITS2[u][:3]
+                opt = UNITS2[u][3] if len(UNITS2[u]) > 3 else {}
+                text = c2lean2.generate(path, fns, 'Librfn.Gen.' + u, INC + opt.get('flags', []), fuel=fuel, externs=opt.get('externs', ()))
             else:
                 path, fns = UNITS[u]
                 text = c2lean.generate(path, fns, 'Librfn.Gen.' + u, INC)
